@@ -21,7 +21,9 @@
 EXTENDS Naturals, Integers, Sequences, FiniteSets, TLC
 
 CONSTANTS Archives, MaxCalls,
-          TestZipResets      \* TRUE: testzip() drops the cached decoders itself (repaired tree)
+          TestZipResets,     \* TRUE: testzip() drops the cached decoders itself (repaired tree)
+          WriteGuarded       \* TRUE: write-side calls on a read-mode object are refused before anything happens (repaired tree);
+                             \* FALSE: they compress into the caller's stream (tree before the fix, archive opened from a stream)
 
 VARIABLES a,          \* the archive
           dec,        \* folder -> substreams already produced by the cached decoder, -1 = None
@@ -138,7 +140,15 @@ Reset == /\ ncalls < MaxCalls /\ ncalls' = ncalls + 1
          /\ res' = [call |-> "reset", ok |-> TRUE, out |-> {}]
          /\ UNCHANGED <<a, disk>>
 
-Next == \/ GetNames \/ List \/ GetInfo \/ ArchiveInfo \/ NeedsPassword \/ Test \/ TestZip \/ Reset \/ ExtractAll
+(* a write-side call (write, writeall, writef, writestr; the header-mode setters) made on a read-mode object: whether or not it   *)
+(* raises, it changes neither the archive nor anything the later read calls depend on                                          *)
+WrongMode == /\ ncalls < MaxCalls /\ ncalls' = ncalls + 1
+             /\ res' = [call |-> "wrongmode", ok |-> FALSE, out |-> {}]
+             /\ disk' = IF WriteGuarded THEN disk ELSE disk + 1
+             /\ UNCHANGED <<a, dec, dirty, targets>>
+
+Next == \/ WrongMode
+        \/ GetNames \/ List \/ GetInfo \/ ArchiveInfo \/ NeedsPassword \/ Test \/ TestZip \/ Reset \/ ExtractAll
         \/ \E T \in SUBSET (0..N) : \E rec \in BOOLEAN : Extract(T, rec)        \* 0 = a name that is not in the archive
 
 Spec == Init /\ [][Next]_vars
